@@ -51,15 +51,73 @@ def _load_lifters():
         importlib.import_module(f"harness.lifters.{m.name}")
 
 
-def run(repo):
+TARGETS_FILE = os.path.join(os.path.dirname(os.path.abspath(__file__)), "lifters", "targets.json")
+
+
+def _load_targets():
+    import json
+    try:
+        with open(TARGETS_FILE) as f:
+            return json.load(f)
+    except (OSError, ValueError):
+        return {}
+
+
+def run(repo, strict=False):
+    """Run every lifter.  A lifter that refuses (Untranslatable) does not stop the others: its generated file keeps
+    its last translatable content and the refusal is recorded under info["_refused"] = {generated file or
+    "?<lifter>": message}, so that only the properties whose Lean modules import that file treat it as a broken tie
+    (core.run_check).  The lifter -> generated-file table is remembered in lifters/targets.json (committed; rewritten
+    only when a successful run finds a new or changed entry).  strict=True restores raise-on-first-refusal."""
+    import json
     if not LIFTERS:
         _load_lifters()
     info = {}
+    refused = {}
+    targets = _load_targets()
+    new_targets = dict(targets)
     for fn in LIFTERS:
-        name, content, meta = fn(repo)
+        key = f"{fn.__module__.rsplit('.', 1)[-1]}.{fn.__name__}"
+        try:
+            name, content, meta = fn(repo)
+        except Untranslatable as e:
+            if strict:
+                raise
+            refused[targets.get(key, "?" + key)] = f"{key}: {e}"
+            continue
+        new_targets[key] = name
         changed = _write(name, content)
         info[name] = dict(meta, rewritten=changed)
+    if new_targets != targets and repo == "/repo":
+        try:
+            with open(TARGETS_FILE, "w") as f:
+                json.dump(new_targets, f, indent=1, sort_keys=True)
+        except OSError:
+            pass
+    if refused:
+        info["_refused"] = refused
     return info
+
+
+def generated_deps(module):
+    """Names of the Generated/*.lean files in the transitive import closure of a FairModel module."""
+    import re
+    seen, todo, gens = set(), [module], set()
+    while todo:
+        m = todo.pop()
+        if m in seen or not m.startswith("FairModel"):
+            continue
+        seen.add(m)
+        path = os.path.join(leanrun.LEAN, m.replace(".", "/") + ".lean")
+        try:
+            txt = open(path).read()
+        except OSError:
+            continue
+        for imp in re.findall(r"^import\s+(FairModel\.\S+)", txt, re.M):
+            if imp.startswith("FairModel.Generated."):
+                gens.add(imp.split(".")[-1] + ".lean")
+            todo.append(imp)
+    return gens
 
 
 # Lifters live in harness/lifters/*.py (auto-imported); each registers itself with @translate.lifter
